@@ -14,6 +14,15 @@ Site labels (in the order they occur within one event):
   W-  W+        transport write (W+ = bytes handed to the transport)
   N-  N+        transport drain
   M-  M+        on_message callback (M+ = callback returned)
+Further dimensions (round 4):
+  * MULTIPLICITY – `new_file(others=[…])` puts further sessions (their own CompIDs, counters and rows:
+    ahead of / behind / interleaved with the endpoint's) into the SAME journal file, before or after the
+    endpoint's own session row; `others_snapshot()` reads them back (they must never change);
+  * CONFIG – `restart(role, mode)`: mode "file" = journaler closed without commit and reopened from the file
+    (process death), mode "object" = only the connection object is rebuilt over the SAME live Journaler
+    (file or in-memory); role 1 / 2 / 0 = AsyncFIXClient / AsyncFIXDummyServer / base constructor;
+  * BYTES – `feed_bytes(chunks)` hands raw chunks to the library's own `socket_read_task` (receive buffer,
+    decoder, `_process_message`), a final `b""` is the peer's death.
 Nothing here calls the Lean model.
 """
 from __future__ import annotations
@@ -112,6 +121,7 @@ class RImpl(S.Impl):
         impl, j, c = self, self.journal, self.conn
         inbound = self.MD.INBOUND
         persist, setseq = j.persist_msg, j.set_seq_num
+        self._orig_persist, self._orig_setseq = persist, setseq
 
         def persist_msg(msg, session, direction):
             lab = "PI" if direction == inbound else "PO"
@@ -163,8 +173,10 @@ class RImpl(S.Impl):
         self.journal = None
         self.conn = None
 
-    def new_file(self):
-        """fresh journal file + fresh object (start of a new history)"""
+    def new_file(self, others=None, others_first=False, memory=False):
+        """fresh journal (file, or in-memory) + fresh object (start of a new history).
+        others: [{"sender","target","out","inb","out_rows":[(seq,(mtype,fields))],"in_rows":[…]}] – further
+        sessions living in the same journal; others_first: their session rows are created before ours."""
         self._drop()
         if self.nfile:
             try:
@@ -172,22 +184,78 @@ class RImpl(S.Impl):
             except OSError:
                 pass
         self.nfile += 1
+        self.memory = memory
         self.path = os.path.join(self.tmpdir, f"journal{self.nfile}.db")
-        self.journal = self.FileJournaler(self.path)
+        self.journal = self.FileJournaler(None if memory else self.path)
+        self.others = list(others or [])
+        if others_first:
+            self._insert_other_sessions()
         self.conn = self.Conn(self.Proto(), "S", "T", self.journal, "h", 1, 30, logger=self.log)
         self.key = self.conn._session.key
+        if not others_first:
+            self._insert_other_sessions()
+        self._insert_other_rows()
         self.incarnation += 1
         self._hook()
         self.arm(None)
 
-    def restart(self, role):
-        """discard the object, rebuild journaler + connection over the same file.
+    # ---- other sessions in the same journal -------------------------------------------------------
+    def _insert_other_sessions(self):
+        j = self.journal
+        for o in self.others:
+            sess = j.create_or_load(o["target"], o["sender"])
+            o["key"] = sess.key
+            j.cursor.execute("UPDATE session SET outboundSeqNo=?, inboundSeqNo=? WHERE sessionId=?",
+                             (o["out"], o["inb"], sess.key))
+        real = j.conn._real if isinstance(j.conn, _ConnProxy) else j.conn
+        real.commit()
+
+    def _insert_other_rows(self):
+        j = self.journal
+        for o in self.others:
+            for rows, d in ((o["out_rows"], self.MD.OUTBOUND), (o["in_rows"], self.MD.INBOUND)):
+                for seq, (_, fs) in rows:
+                    j.cursor.execute("INSERT OR REPLACE INTO message VALUES(?, ?, ?, ?)",
+                                     (seq, o["key"], d.value, S.fields_to_bytes(fs)))
+        real = j.conn._real if isinstance(j.conn, _ConnProxy) else j.conn
+        real.commit()
+
+    def load(self, a):
+        """S.Impl.load empties the whole message table: the other sessions' rows are put back"""
+        super().load(a)
+        if self.others:
+            self._insert_other_rows()
+
+    def others_snapshot(self):
+        """(key, target, sender, outboundSeqNo, inboundSeqNo, rows) of every session but ours"""
+        cur = self.journal.cursor
+        cur.execute("SELECT sessionId, targetCompId, senderCompId, outboundSeqNo, inboundSeqNo FROM session "
+                    "WHERE sessionId != ? ORDER BY sessionId", (self.key,))
+        out = []
+        for row in list(cur):
+            cur.execute("SELECT seqNo, direction, msg FROM message WHERE session=? ORDER BY direction, seqNo", (row[0],))
+            out.append((tuple(row), tuple((r[0], r[1], bytes(r[2])) for r in cur)))
+        return out
+
+    def restart(self, role, mode="file"):
+        """discard the object, rebuild it over the same journal.
+        mode "file": the journaler dies with the process (open transaction lost), a new one opens the file;
+        mode "object": only the connection object is rebuilt, over the SAME live Journaler (quiescent points
+        only; the only possible mode for an in-memory journal).
         role 1 = AsyncFIXClient, 2 = AsyncFIXDummyServer, 0 = bare AsyncFIXConnection (constructors really run)."""
         old = self.conn
         s = old._session
         sender, target, hb = s.sender_comp_id, s.target_comp_id, old._heartbeat_period
-        self._drop()
-        self.journal = self.FileJournaler(self.path)
+        if self.memory or mode == "object":
+            assert not self.killed, "an object-only restart is defined at quiescent points"
+            j = self.journal
+            j.persist_msg, j.set_seq_num = self._orig_persist, self._orig_setseq
+            if isinstance(j.conn, _ConnProxy):
+                j.conn = j.conn._real
+            self.conn = None
+        else:
+            self._drop()
+            self.journal = self.FileJournaler(self.path)
         cls = {1: self.ClientConn, 2: self.ServerConn}.get(role, self.Conn)
         c = cls(self.Proto(), sender, target, self.journal, "h", 1, hb, logger=self.log)
         c.__class__ = self.Conn
@@ -217,6 +285,31 @@ class RImpl(S.Impl):
             del self.eff[self.kill_eff:]
         eff = self.effects()
         return eff, self.killed
+
+    def feed_bytes(self, chunks, now_ms=None):
+        """raw chunks through the library's own reader task (receive buffer + decoder + _process_message);
+        a chunk b"" is the end of the stream (the peer died): the task disconnects"""
+        c = self.conn
+        del self.eff[:]
+        self.arm(None)
+        if now_ms is not None:
+            self.now_ms = now_ms
+        self.declined = None
+        self.log.mode = "task"
+        had = c._socket_reader is not None
+        if had:
+            c._socket_reader = S._Reader(list(chunks))
+        try:
+            S.run_coro(c.socket_read_task())
+        except S._Done:
+            pass
+        except S._Abort as a:
+            self.eff.append(("R", a.kind))
+        finally:
+            self.log.mode = "msg"
+        if c._socket_reader is not None:
+            c._socket_reader = object()
+        return self.effects()
 
     def effects(self):
         return super().effects()
